@@ -5,14 +5,19 @@ package main
 // cache transport stores the body in a file first; the range-retry reader only ever sees that file).
 // Every download is followed by a second one from a server that no longer faults, with a fresh
 // in-process cache over the same directory: whatever the first one left behind, the second must
-// deliver the server's bytes.
+// deliver the server's bytes. For the cached path the cache directory is inspected after each
+// download (what is advertised under the etag's name, temporary files that no advertised name points
+// to) and everything is compared with Model/TransportCache.v (check_index in Corr/C20.v).
 
 import (
 	"context"
 	"fmt"
+	"io/fs"
 	"net/http"
 	"net/http/httptest"
 	"os"
+	"path/filepath"
+	"strings"
 
 	"chainguard.dev/apko/pkg/apk/apk"
 	"verifharness/gal"
@@ -25,24 +30,58 @@ type idesc struct {
 	Framing string `json:"framing"`
 	Fin     bool   `json:"clean_close"`
 	Cuts    []int  `json:"cuts"`
-	Phase   string `json:"phase"`
-	Got     int    `json:"delivered"`
-	Err     string `json:"error,omitempty"`
+	Got1    int    `json:"delivered_by_faulty_download"`
+	Err1    string `json:"error_of_faulty_download,omitempty"`
+	Adv1    int    `json:"advertised_bytes_after_faulty_download"`
+	Tmps1   int    `json:"orphan_temporaries_after_faulty_download"`
+	Got2    int    `json:"delivered_by_healthy_download"`
+	Err2    string `json:"error_of_healthy_download,omitempty"`
 	Live    bool   `json:"expected_to_complete"`
+	Model   bool   `json:"compared_with_model"`
+}
+
+// inspectCache: the content reachable through the advertised name(s) (anything that is not *.tmp; -1 bytes = none),
+// and the number of *.tmp files no advertised name resolves to
+func inspectCache(dir string) (adv []byte, hasAdv bool, orphans int) {
+	targets := map[string]bool{}
+	var temps []string
+	_ = filepath.WalkDir(dir, func(p string, d fs.DirEntry, err error) error {
+		if err != nil || d.IsDir() {
+			return nil
+		}
+		if strings.HasSuffix(d.Name(), ".tmp") {
+			temps = append(temps, p)
+			return nil
+		}
+		if b, err := os.ReadFile(p); err == nil {
+			adv, hasAdv = b, true
+		}
+		if t, err := filepath.EvalSymlinks(p); err == nil {
+			targets[t] = true
+		}
+		return nil
+	})
+	for _, t := range temps {
+		rt, err := filepath.EvalSymlinks(t)
+		if err != nil || !targets[rt] {
+			orphans++
+		}
+	}
+	return
 }
 
 func indexStage(dir string, seed uint64, tier string) error {
-	w := &gal.Writer{Dir: dir, Require: "From Apko Require Import Corr.C20.", Type: "http_case", Check: "check_http", Shard: 400}
+	w := &gal.Writer{Dir: dir, Require: "From Apko Require Import Corr.C20.", Type: "index_case", Check: "check_index", Shard: 400}
 	r := gal.NewRand(seed + 4242)
 	n := 40
 	if tier == "thorough" {
 		n = 500
 	}
 	type plan struct {
-		cached             bool
+		cached              bool
 		kind, dlen, framing int
-		fin                bool
-		cuts               []int
+		fin                 bool
+		cuts                []int
 	}
 	var plans []plan
 	// corners: a drop at every interesting offset while the body streams into the cache file (seeded change C20-6), and the same without a cache
@@ -52,9 +91,14 @@ func indexStage(dir string, seed uint64, tier string) error {
 			plans = append(plans, plan{cached, 0, 300, frLength, true, []int{cut}})
 			plans = append(plans, plan{cached, 0, 300, frChunked, false, []int{cut}})
 		}
+		plans = append(plans, plan{cached, 0, 300, frChunked, true, []int{300}}) // cut after the last byte, before the terminating chunk
 		plans = append(plans, plan{cached, 1, 4097, frLength, true, []int{2000, 3000}})
 		plans = append(plans, plan{cached, 2, 4097, frLength, false, []int{2000}})
 		plans = append(plans, plan{cached, 0, 4097, frLength, false, nil})
+		// close-delimited responses closed cleanly: finding C20-F1 (plain) and C20-F2 (the short body stays in the cache)
+		plans = append(plans, plan{cached, 0, 300, frClose, true, []int{150}})
+		plans = append(plans, plan{cached, 1, 13, frClose, true, []int{0}})
+		plans = append(plans, plan{cached, 0, 300, frClose, true, nil}) // not cut: complete
 	}
 	for i := 0; i < n; i++ {
 		dlen := gal.Pick(r, []int{1, 13, 300, 4097, 20000})
@@ -62,7 +106,25 @@ func indexStage(dir string, seed uint64, tier string) error {
 		for j, nc := 0, r.Intn(4); j < nc; j++ {
 			cuts = append(cuts, r.Intn(dlen+1))
 		}
-		plans = append(plans, plan{r.Chance(2, 3), r.Intn(3), dlen, gal.Pick(r, []int{frLength, frLength, frChunked}), r.Chance(1, 2), cuts})
+		fr := gal.Pick(r, []int{frLength, frLength, frChunked})
+		fin := r.Chance(1, 2)
+		if r.Chance(1, 10) {
+			fr, fin = frClose, true
+			dlen = min(dlen, 4097)
+			for j := range cuts {
+				cuts[j] = min(cuts[j], dlen)
+			}
+		}
+		plans = append(plans, plan{r.Chance(2, 3), r.Intn(3), dlen, fr, fin, cuts})
+	}
+	optBytes := func(present bool, b []byte, dseed, dlen int, data []byte) string {
+		if !present {
+			return "None"
+		}
+		if len(b) > 300 && len(b) <= dlen && string(b) == string(data[:len(b)]) {
+			return fmt.Sprintf("(Some (firstn %s (gen_data %s %s)))", gal.Nat(len(b)), gal.Nat(dseed), gal.Nat(dlen))
+		}
+		return "(Some " + gal.Bytes(b) + ")"
 	}
 	for i, p := range plans {
 		dseed := r.Intn(1000)
@@ -85,55 +147,106 @@ func indexStage(dir string, seed uint64, tier string) error {
 			}
 			return ts.Client()
 		}
+		var got [2][]byte
+		var ok [2]bool
+		var es [2]string
+		var adv [2][]byte
+		var hasAdv [2]bool
+		var tmps [2]int
+		var effCuts1 int
+		var corner1, unframed1 bool
 		for phase := 0; phase < 2; phase++ {
 			if phase == 1 {
 				srv.mu.Lock()
 				srv.cuts = nil
 				srv.mu.Unlock()
 			}
-			got, err := apk.VerifFetchRepositoryIndex(context.Background(), url, client())
-			srv.mu.Lock()
-			effCuts, corner, unframed := srv.effCuts, srv.corner, srv.unframed
-			srv.mu.Unlock()
-			// what must complete: the second, fault-free download always; the first one without a cache under the http
-			// stage's conditions restricted to Range-honouring servers and resets (the cache transport below the reader does not retry)
-			live := phase == 1 || (!p.cached && !unframed && !corner && effCuts <= 2 && p.kind == 0 && !p.fin)
-			if phase == 0 && len(p.cuts) == 0 {
-				live = true
-			}
-			errName, es := "EEOF", ""
-			if err != nil {
-				errName, es, got = "EFail", err.Error(), nil
-				if len(es) > 120 {
-					es = es[:120]
-				}
-			}
-			path := "plain"
-			if p.cached {
-				path = "cached"
-			}
-			ph := []string{"faulty", "healthy-after"}[phase]
-			var term string
-			okPrefix := len(got) <= p.dlen && string(got) == string(data[:len(got)])
-			if p.dlen > 300 && okPrefix {
-				term = fmt.Sprintf("{| h_seed := %s; h_len := %s; h_opened := true; h_got := firstn %s (gen_data %s %s); h_err := %s; h_unframed := %s; h_live := %s |}",
-					gal.Nat(dseed), gal.Nat(p.dlen), gal.Nat(len(got)), gal.Nat(dseed), gal.Nat(p.dlen), errName, gal.Bool(unframed), gal.Bool(live))
+			b, err := apk.VerifFetchRepositoryIndex(context.Background(), url, client())
+			if err == nil {
+				got[phase], ok[phase] = b, true
 			} else {
-				if len(got) > 3000 {
-					fmt.Printf("IMPL-VIOLATION tag=index-short-or-altered-body {\"path\":%q,\"len\":%d,\"cuts\":%v,\"phase\":%q,\"delivered\":%d}\n", path, p.dlen, p.cuts, ph, len(got))
-					continue
+				es[phase] = err.Error()
+				if len(es[phase]) > 120 {
+					es[phase] = es[phase][:120]
 				}
-				term = fmt.Sprintf("{| h_seed := %s; h_len := %s; h_opened := true; h_got := %s; h_err := %s; h_unframed := %s; h_live := %s |}",
-					gal.Nat(dseed), gal.Nat(p.dlen), gal.Bytes(got), errName, gal.Bool(unframed), gal.Bool(live))
 			}
-			w.Add(gal.Case{Term: term, Class: fmt.Sprintf("index-%s/%s/%s/%s", path, kindNames[p.kind], framingNames[p.framing], ph), Trivial: len(p.cuts) == 0,
-				Key:  fmt.Sprintf("%d/%d", i, phase),
-				Desc: idesc{path, kindNames[p.kind], p.dlen, framingNames[p.framing], p.fin, p.cuts, ph, len(got), es, live}})
+			if p.cached {
+				adv[phase], hasAdv[phase], tmps[phase] = inspectCache(cdir)
+			}
+			if phase == 0 {
+				srv.mu.Lock()
+				effCuts1, corner1, unframed1 = srv.effCuts, srv.corner, srv.unframed
+				srv.mu.Unlock()
+			}
 		}
 		ts.Close()
 		if cdir != "" {
 			os.RemoveAll(cdir)
 		}
+		// the first download in the model's alphabet: only the first connection matters on the cached path (no retry there)
+		conn, reads, model := "CServe", "[]", p.cached
+		firstCut := -1
+		if len(p.cuts) > 0 {
+			firstCut = p.cuts[0]
+		}
+		isCut := firstCut >= 0 && (firstCut < p.dlen || (firstCut == p.dlen && p.framing == frChunked && p.dlen > 0))
+		switch {
+		case !isCut:
+			if p.framing == frClose {
+				conn = fmt.Sprintf("(CCloseDelim %s %s)", kindNames[p.kind], gal.Nat(p.dlen))
+			}
+		case p.framing == frClose && p.fin:
+			conn = fmt.Sprintf("(CCloseDelim %s %s)", kindNames[p.kind], gal.Nat(firstCut))
+		case p.framing == frClose:
+			model = false // a reset of a close-delimited response may or may not be seen as an error
+		default:
+			reads = fmt.Sprintf("[{| rk := %s; rfail := true; reager := false |}]", gal.Nat(firstCut))
+		}
+		// what must complete: the first download without a cache under the http stage's conditions restricted to
+		// Range-honouring servers and resets; with a cache only when its one connection is not cut (the cache transport
+		// does not retry); an uncut download always
+		live := !p.cached && !unframed1 && !corner1 && effCuts1 <= 2 && p.kind == 0 && !p.fin
+		if !isCut {
+			live = true // the first connection delivers everything
+		}
+		if unframed1 {
+			live = false
+		}
+		big := false
+		for ph := 0; ph < 2; ph++ {
+			if len(got[ph]) > 300 && !(len(got[ph]) <= p.dlen && string(got[ph]) == string(data[:len(got[ph])])) {
+				big = true
+			}
+			if len(adv[ph]) > 300 && !(len(adv[ph]) <= p.dlen && string(adv[ph]) == string(data[:len(adv[ph])])) {
+				big = true
+			}
+		}
+		path := "plain"
+		if p.cached {
+			path = "cached"
+		}
+		if big {
+			// long bytes that are not the server's: judged here (Coq would have to parse them as a literal)
+			fmt.Printf("IMPL-VIOLATION tag=index-short-or-altered-body {\"path\":%q,\"len\":%d,\"cuts\":%v,\"delivered\":[%d,%d],\"advertised\":[%d,%d]}\n",
+				path, p.dlen, p.cuts, len(got[0]), len(got[1]), len(adv[0]), len(adv[1]))
+			continue
+		}
+		term := fmt.Sprintf("{| i_seed := %s; i_len := %s; i_cached := %s; i_model := %s; i_conn := %s; i_reads := %s; i_live := %s; "+
+			"o_res1 := %s; o_adv1 := %s; o_tmps1 := %s; o_res2 := %s; o_adv2 := %s; o_tmps2 := %s |}",
+			gal.Nat(dseed), gal.Nat(p.dlen), gal.Bool(p.cached), gal.Bool(model), conn, reads, gal.Bool(live),
+			optBytes(ok[0], got[0], dseed, p.dlen, data), optBytes(hasAdv[0], adv[0], dseed, p.dlen, data), gal.Nat(tmps[0]),
+			optBytes(ok[1], got[1], dseed, p.dlen, data), optBytes(hasAdv[1], adv[1], dseed, p.dlen, data), gal.Nat(tmps[1]))
+		advLen := -1
+		if hasAdv[0] {
+			advLen = len(adv[0])
+		}
+		cutClass := "uncut"
+		if isCut {
+			cutClass = "cut"
+		}
+		w.Add(gal.Case{Term: term, Class: fmt.Sprintf("index-%s/%s/%s/%s", path, kindNames[p.kind], framingNames[p.framing], cutClass), Trivial: len(p.cuts) == 0,
+			Key:  fmt.Sprintf("%d", i),
+			Desc: idesc{path, kindNames[p.kind], p.dlen, framingNames[p.framing], p.fin, p.cuts, len(got[0]), es[0], advLen, tmps[0], len(got[1]), es[1], live, model}})
 	}
 	return w.Flush()
 }
